@@ -10,7 +10,7 @@ import routing_gen as rg
 
 CODE_TEXT = {
     "1": "a message carrying a reply serial reached a connection that has no open call to its sender",
-    "2": "a send produced something other than exactly one forward of that message or one error to its sender",
+    "2": "a send produced something other than exactly one forward of that message (plus at most one copy per eavesdropping connection, none extra for the addressed recipient) or one error to its sender",
     "3": "the message was delivered to a connection that is not the primary owner of its destination",
     "4": "NoReply errors are not exactly one per open call ended by callee disconnect / timeout",
     "5": "an unrequested reply was refused with an error other than AccessDenied",
@@ -90,7 +90,8 @@ def classify(events, toks, oracle):
         if f[0] == "S":
             c, ty, nr, ser, rser, nfds = int(f[1]), f[2], f[3] == "1", int(f[5]), int(f[6]), int(f[8])
             owner = oc.split("@")[1] if "@" in oc else "x"
-            d = items[0][1] if len(items) == 1 else "?"
+            d = items[0][1] if items and all(x[1].startswith("F.") for x in items) or len(items) == 1 else "?"
+            classes.extend(["eavesdropped-copy"] * (len(items) - 1 if d.startswith("F.") else 0))
             if d.startswith("F."):
                 if rser:
                     classes.append("reply-delivered" if ty in "re" else "call-or-signal-with-rserial-delivered")
